@@ -94,9 +94,59 @@ class ExportParamValue(Contract):
     must_raise = property(lambda self: [("unsupported", lambda eng, st0, a: not self._supported(eng, st0, a))])
 
 
+PULSE_MAP = {"v1": "v1", "v2": "v2", "td": "delay", "tr": "rise", "tf": "fall", "tpw": "width", "tper": "period"}
+
+
+class DictifyParams(Contract):
+    key = "hdl21.proto.exporting:dictify_params"
+    raises = (TypeError,)
+
+    def scenarios(self, eng):
+        return []
+
+
+class ExportPrimitiveParams(Contract):
+    """export_primitive_params(params): a pulse source's parameters under their VLSIR names (delay->td, rise->tr,
+    fall->tf, width->tpw, period->tper, v1, v2), every value being the parameter object itself; other primitives'
+    parameters pass through name by name."""
+    key = "hdl21.proto.exporting:export_primitive_params"
+    props = ("C13",)
+    raises = (TypeError,)
+
+    def scenarios(self, eng):
+        from hdl21.primitives import PulseVoltageSourceParams, DcVoltageSourceParams
+
+        def pulse(eng, st):
+            p = sym_ref(st, "params", (PulseVoltageSourceParams,))
+            eng.field_classes.update({f"PulseVoltageSourceParams.{f}": (Prefixed, Literal) for f in PULSE_MAP.values()})
+            return {"params": p}
+        yield Scenario("pulse", pulse)
+
+        def other(eng, st):
+            return {"params": sym_ref(st, "params", (DcVoltageSourceParams,))}
+        yield Scenario("other-primitive", other)
+
+    def p_map(self, eng, st0, st, a, res):
+        from hdl21.primitives import PulseVoltageSourceParams
+        if not issubclass(eng.classes_of(st0, a.params)[0], PulseVoltageSourceParams):
+            calls = [c for c in st.calls if c[0] == DictifyParams.key]
+            return len(calls) == 1 and calls[0][1].params is a.params
+        if not isinstance(res, dict) or list(res) != list(PULSE_MAP):
+            return False
+        conj = []
+        for vname, field in PULSE_MAP.items():
+            want = st0.heap.get(f"PulseVoltageSourceParams.{field}", a.params.z)
+            got = res[vname]
+            conj.append(want == NULL if got is None else (got.z == want if isinstance(got, SRef) else z3.BoolVal(False)))
+        return z3.And(conj)
+    posts = property(lambda self: [("documented-renaming", self.p_map)])
+
+
 def engine():
-    return mk_engine(contracts=CONTRACTS, schema_extra=SCHEMA_EXTRA)
+    schema = dict(SCHEMA_EXTRA)
+    schema.update({f"PulseVoltageSourceParams.{f}": "ref" for f in PULSE_MAP.values()})
+    return mk_engine(contracts=CONTRACTS, schema_extra=schema)
 
 
-CONTRACTS = [ExportPrefix(), ExportPrefixed(), ExportParamValue()]
-VERIFY = [CONTRACTS[0], CONTRACTS[2]]
+CONTRACTS = [ExportPrefix(), ExportPrefixed(), ExportParamValue(), DictifyParams(), ExportPrimitiveParams()]
+VERIFY = [CONTRACTS[0], CONTRACTS[2], CONTRACTS[4]]
